@@ -4,7 +4,7 @@ for a key depends on the key and on nothing that changes between calls (routing 
 from vlib import fixtures
 import re
 
-from rules import order, lru
+from rules import order, lru, parallel
 from rules.variant import storage_switches, arm_region
 from vlib.mir import Fn, op_local, op_place, rv_operands
 from vlib.run import Broken
@@ -24,7 +24,7 @@ def need(fx, fid):
 def run(ctx):
     fx = ctx.facts("default")
     order.use_facts(fx)
-    fixtures.run(ctx, ['order', 'lru'])
+    fixtures.run(ctx, ['order', 'lru', 'clear'])
     # recency: every access to an existing entry moves it to the head; list operations run under the index lock
     LM = 'containers::specialized::lru_map::LruMap::<K, V, E>::'
     nt = 0
@@ -34,6 +34,8 @@ def run(ctx):
     ctx.floor('R-TOUCH.accesses', 2)
     lru.list_ops_under_index_lock(ctx, fx, 'src/containers/specialized/lru_map.rs', 'lru_map::LruMap', 'LruMap::hash_map')
     ctx.floor('R-LOCKCOV.lru.sites', 3)
+    parallel.clear_all(ctx, fx, ['src/containers/specialized/lru_map.rs', 'src/containers/specialized/concurrent_lru_map.rs'])
+    ctx.floor('R-CLEAR.fields', 3)
     ev = need(fx, LM + "evict_lru")
     ctx.analysed_fns.add(ev.id)
     # exactly one callback on every successful path
